@@ -190,7 +190,7 @@ func runGated(cfg gatedCfg, preBlock func(outcome, []string)) (res gatedResult) 
 		var a, b atomic.Int64
 		a.Store(-1)
 		b.Store(-1)
-		pr.Do(func() {
+		do(pr, func() {
 			a.Store(int64(pool.PendingTasksCounter.Get()))
 			if wantQueue {
 				b.Store(int64(pool.Queue.Size()))
@@ -206,7 +206,7 @@ func runGated(cfg gatedCfg, preBlock func(outcome, []string)) (res gatedResult) 
 		curGate.Store(gate)
 	}
 	pool.Start()
-	gdump.WaitQuiescent()
+	waitQuiescent()
 	step("Start(); quiescent")
 
 	var probe, carrier *gtask
@@ -221,7 +221,7 @@ func runGated(cfg gatedCfg, preBlock func(outcome, []string)) (res gatedResult) 
 			}
 			t := newTask(cfg.Preload > 0)
 			pool.Submit(body(t, nil))
-			gdump.WaitQuiescent()
+			waitQuiescent()
 		}
 		res.Out.Reached = gate.reached.Load()
 		if !res.Out.Reached {
@@ -233,7 +233,7 @@ func runGated(cfg gatedCfg, preBlock func(outcome, []string)) (res gatedResult) 
 		if cfg.PushDuring {
 			t := newTask(false)
 			sub.Start(func() { pool.Submit(body(t, nil)) })
-			gdump.WaitQuiescent()
+			waitQuiescent()
 			step("Submit issued while the dispatcher holds the stack mutex (submitter parked=%v)", sub.Busy())
 		}
 	case "submit", "drain", "restart-nowait":
@@ -241,12 +241,12 @@ func runGated(cfg gatedCfg, preBlock func(outcome, []string)) (res gatedResult) 
 			carrier = newTask(true)
 			probe = newTask(false)
 			pool.Submit(body(carrier, func() { pool.Submit(body(probe, nil)) }))
-			gdump.WaitQuiescent()
+			waitQuiescent()
 		}
 		for i := 0; i < cfg.Preload; i++ {
 			pool.Submit(body(newTask(true), nil))
 		}
-		gdump.WaitQuiescent()
+		waitQuiescent()
 		if cfg.Preload > 0 {
 			step("%d gated task(s) submitted; %s", cfg.Preload, patternOf(gdump.Snapshot(), before))
 		}
@@ -261,7 +261,7 @@ func runGated(cfg gatedCfg, preBlock func(outcome, []string)) (res gatedResult) 
 			probe = newTask(false)
 			sub.Start(func() { pool.Submit(body(probe, nil)) })
 		}
-		gdump.WaitQuiescent()
+		waitQuiescent()
 		res.Out.Reached = gate.reached.Load()
 		if !res.Out.Reached {
 			res.Inconcl = "Submit never reached " + cfg.Point
@@ -274,21 +274,21 @@ func runGated(cfg gatedCfg, preBlock func(outcome, []string)) (res gatedResult) 
 
 	if cfg.Shutdown {
 		res.Out.ShutdownCalled = true
-		st := sh.Do(func() { pool.Shutdown() })
+		st := do(sh, func() { pool.Shutdown() })
 		step("Shutdown() -> %s", stName(st))
 		if cfg.Kind == "restart-nowait" {
 			// restart without waiting for the shutdown to complete (Start waits itself)
-			st = wt.Do(func() { pool.Start() })
+			st = do(wt, func() { pool.Start() })
 			step("Start() -> %s", stName(st))
 		} else if !blockMain {
-			st = wt.Do(func() { pool.ShutdownComplete.Wait(); waitRet.Store(now()) })
+			st = do(wt, func() { pool.ShutdownComplete.Wait(); waitRet.Store(now()) })
 			step("ShutdownComplete.Wait() -> %s", stName(st))
 		}
 	}
 	releaseGate := func() {
 		if gate != nil {
 			gate.open()
-			gdump.WaitQuiescent()
+			waitQuiescent()
 			cnt, _ := counterQueue(false)
 			step("gate released; counter=%d", cnt)
 		}
@@ -298,7 +298,7 @@ func runGated(cfg gatedCfg, preBlock func(outcome, []string)) (res gatedResult) 
 		for _, t := range tasks {
 			if t.gate != nil && !t.opened {
 				openTask(t)
-				gdump.WaitQuiescent()
+				waitQuiescent()
 				n++
 			}
 		}
@@ -333,7 +333,7 @@ func runGated(cfg gatedCfg, preBlock func(outcome, []string)) (res gatedResult) 
 	}
 
 	if cfg.Kind == "restart-nowait" {
-		gs = gdump.WaitQuiescent()
+		gs = waitQuiescent()
 		fill(&res.Out)
 		if wt.Busy() {
 			res.Out.StartStuck = "before-shutdown-complete"
@@ -344,10 +344,10 @@ func runGated(cfg gatedCfg, preBlock func(outcome, []string)) (res gatedResult) 
 		// restarted: the pool must work and shut down again
 		t := newTask(false)
 		pool.Submit(body(t, nil))
-		gdump.WaitQuiescent()
-		sh.Do(func() { pool.Shutdown() })
-		wt.Do(func() { pool.ShutdownComplete.Wait() })
-		gs = gdump.WaitQuiescent()
+		waitQuiescent()
+		do(sh, func() { pool.Shutdown() })
+		do(wt, func() { pool.ShutdownComplete.Wait() })
+		gs = waitQuiescent()
 		fill(&res.Out)
 		step("restarted, one more task, Shutdown+Wait: %s counter=%d queue=%d ran=%d accepted=%d finished=%d", res.Out.Pattern, res.Out.Counter, res.Out.Queue, res.Out.Ran, res.Out.Accepted, res.Out.Finished)
 		res.Findings = classify(res.Out)
@@ -358,7 +358,7 @@ func runGated(cfg gatedCfg, preBlock func(outcome, []string)) (res gatedResult) 
 	}
 
 	if blockMain {
-		gs = gdump.WaitQuiescent()
+		gs = waitQuiescent()
 		var o outcome
 		o.ShutdownCalled = cfg.Shutdown
 		o.Reached = res.Out.Reached
@@ -374,7 +374,7 @@ func runGated(cfg gatedCfg, preBlock func(outcome, []string)) (res gatedResult) 
 		step("ShutdownComplete.Wait() and WaitIsZero() returned on the main goroutine")
 	}
 
-	gs = gdump.WaitQuiescent()
+	gs = waitQuiescent()
 	fill(&res.Out)
 	if !cfg.Shutdown {
 		// control variant: pool still running, every accepted task must have run
@@ -386,24 +386,24 @@ func runGated(cfg gatedCfg, preBlock func(outcome, []string)) (res gatedResult) 
 		if probe != nil && probe.runs.Load() != 1 {
 			res.Findings = append(res.Findings, finding{"accepted-task-neither-run-nor-cancelled", fmt.Sprintf("control schedule without Shutdown: the submitted task ran %d times", probe.runs.Load())})
 		}
-		sh.Do(func() { pool.Shutdown() }) // tidy up, not judged
+		do(sh, func() { pool.Shutdown() }) // tidy up, not judged
 		return
 	}
 
 	if cfg.Restart && res.Out.WaitReturned && res.Out.ShutdownReturned && !sub.Busy() {
 		waitRet := now()
-		gdump.WaitQuiescent()
+		waitQuiescent()
 		startCall := now()
-		st := sh.Do(func() { pool.Start() })
+		st := do(sh, func() { pool.Start() })
 		step("Start() -> %s", stName(st))
 		t := newTask(false)
 		if st == gdump.Returned {
 			pool.Submit(body(t, nil))
-			gdump.WaitQuiescent()
-			sh.Do(func() { pool.Shutdown() })
-			wt.Do(func() { pool.ShutdownComplete.Wait() })
+			waitQuiescent()
+			do(sh, func() { pool.Shutdown() })
+			do(wt, func() { pool.ShutdownComplete.Wait() })
 		}
-		gs = gdump.WaitQuiescent()
+		gs = waitQuiescent()
 		var o outcome
 		o.ShutdownCalled = true
 		fill(&o)
